@@ -63,6 +63,7 @@ OPS = [
     ("scale_parameter", {"name": "k", "factor": 0.5}),
     ("update_variable", {"value": 2.0}),
     ("update_variables", {"value": 0.5}),
+    ("update_variables", {"value": "recorded"}),  # back to the last recorded value (read from the result) - e.g. after another override
     ("steady_state", {}),
     ("clear_results", {}),
 ]
@@ -132,6 +133,7 @@ class Reference:
         self.requested = []  # absolute times that must be present exactly once
         self.has_rows = False
         self.start_unknown = False  # after clear_results
+        self.recorded = None
 
     def key(self):
         return sha12([round(self.T, 9), None if self.x is None else round(self.x, 7), sorted(self.params.items()),
@@ -143,6 +145,7 @@ class Reference:
             self.requested.append(self.T)
         self.has_rows = True
         self.x = None if self.x is None else closed_form(t1, self.T, self.x, self.params)
+        self.recorded = self.x  # the state at the end of the recorded trajectory
         self.T = t1
 
     def expected_at(self, t):
@@ -187,7 +190,15 @@ def apply_real(sim, op, T):
         elif name == "update_variable":
             sim.update_variable("x", a["value"])
         elif name == "update_variables":
-            sim.update_variables({"x": a["value"]})
+            val = a["value"]
+            if val == "recorded":
+                val = None
+                try:
+                    val = float(sim.get_result().unwrap_or_err().variables["x"].iloc[-1])
+                except Exception:  # noqa: BLE001 - nothing recorded yet: the operation is skipped
+                    val = None
+            if val is not None:
+                sim.update_variables({"x": val})
         elif name == "steady_state":
             sim.simulate_to_steady_state()
         elif name == "clear_results":
@@ -248,7 +259,12 @@ def apply_ref(ref: Reference, op):
         ref.params[a["name"]] *= a["factor"]
         return "ok"
     if name in ("update_variable", "update_variables"):
-        ref.x = a["value"]
+        if a["value"] == "recorded":
+            if not ref.has_rows or ref.recorded is None:
+                return "ok"  # nothing recorded (or not known to the reference): skipped / unchanged
+            ref.x = ref.recorded
+        else:
+            ref.x = a["value"]
         ref.start_unknown = False
         return "ok"
     if name == "steady_state":
@@ -393,6 +409,7 @@ def run_history(variant, hist):
             ref.requested.append(t_ss)
             ref.T = t_ss
             ref.x = x_ss
+            ref.recorded = x_ss
             if abs(obs["x"][-1] - x_ss) > 1e-4 * max(1.0, abs(x_ss)):
                 return ("steady-state-wrong", f"steady state x={obs['x'][-1]} expected {x_ss}"), step, digest, ref, produced
         else:
